@@ -16,6 +16,7 @@ Decided clauses (all 8 combinations of {history, autocomplete, help}, macros on)
     Down have the empty word and Enter's words equal the full ones with the history push erased; with autocomplete off
     Tab has the empty word; with help off every Enter word with a command dispatches it and equals a full-configuration
     non-help word with the help decision erased. `Cli::write` / `Cli::set_prompt` words are identical in all 8.
+ Imported: C09.parse (see IMPORTS).
 """
 import hashlib
 import json
@@ -30,6 +31,13 @@ from .common import lib_crate
 from . import session
 
 LEVEL = "other"
+IMPORTS = [
+    ("C09", ("C09.parse",), "with help off a line carrying `-h` / `--help` is delivered to the handler like any other command: G shows the "
+                            "generated parser is the same in every feature set, so it has to treat an option the user named `h` like any "
+                            "other declared option (corpus module d13) - a parser that leaves such options to the library's help "
+                            "interception is only right while the help feature is on",
+     ("|d13_help_like_names::Cmd|",)),
+]
 FULL = F.config_name(F.FEATURES)
 
 
